@@ -739,12 +739,12 @@ pub fn c05(out: &str, plain: &[&Tok], marks: &[serde_json::Value], cfg: &Cfg) ->
         if ord >= plain.len() {
             continue;
         }
-        let applies = matches!(kind, "S" | "D" | "C") || (kind == "B" && cfg.begin_style == "always_wrap") || (kind == "T" && refk == 0);
+        let applies = matches!(kind, "S" | "D" | "C" | "U" | "E") || (kind == "B" && cfg.begin_style == "always_wrap") || (kind == "T" && refk == 0);
         if !applies {
             continue;
         }
         let tok = plain[ord];
-        let what = match kind { "S" => "statement", "D" => "declaration", "C" => "block closer", "T" => "file-level declaration item", _ => "begin" };
+        let what = match kind { "S" => "statement", "D" => "declaration", "C" => "block closer", "T" => "file-level declaration item", "U" => "body statement", "E" => "else", _ => "begin" };
         if !first_on_line(ord) {
             let site = if inline_anon(refk) { " [site: inside an anonymous routine that is kept on its parent's line]" } else { "" };
             res.push(Viol { prop: "C05", clause: "own_line", detail: format!("{what} {:?} (plain token {ord}) does not start its line: {:?}{site}", tok.text(out), context(out, tok.content_start())) });
